@@ -26,7 +26,7 @@ def code : Int := 5898
 def pv (x : Rec) : PV := ⟨code, Packs.Hand.LogSinkPack.w, Gen.Packs.LogSinkPack.r, x⟩
 
 /-- a record is a LogSinkPack (its fields as a `Layout.Rec`); its time is the header's `Time` -/
-def codec : Codec Rec := ⟨fun x => writePack (pv x), fun x => (hdrOf "" x).time⟩
+def codec : Codec Rec := ⟨fun x => writePack (pv x), fun x => (hdrOf "" x).time, fun _ => false⟩
 
 /-- `CreatePack`: any factory that constructs a LogSinkPack for its type code -/
 def Fac (fac : Factory) : Prop := fac code = some Gen.Packs.LogSinkPack.r
